@@ -1,8 +1,10 @@
 /-
   Executable model of src/algorithms/cluster/*.rs.  Unweighted coefficients are exact
-  rationals; the weighted ones take cube roots and are executed over `Float`.
+  rationals; the weighted ones take cube roots: they are written generically over a scalar
+  record (`CScalar`) and executed over `Float`.
 -/
 import GraphrsModel.Model.Query
+import GraphrsModel.CScalar
 namespace Graphrs
 namespace Store
 
@@ -115,30 +117,37 @@ def clusteringUnweighted (s : Store) (names : Option (List Nat)) : Outcome (List
     .ok (t.foldl (fun m x => ainsert m x.name
       (if x.ntri == 0 then (0 : Rat) else (x.ntri : Rat) / ((x.degree : Rat) * ((x.degree : Rat) - 1)))) [])
 
-/-! ### weighted variants (Float) -/
+/-! ### weighted variants (written once, generically over the scalar type; executed over `Float`) -/
 
-def wToFloat : W → Float
-  | none => 0.0 / 0.0
-  | some x => Float.ofInt x
+end Store
 
-def fmax (a b : Float) : Float := if a > b then a else if b > a then b else if a != a then b else a
+namespace Store
 
-def maxWeight (s : Store) : Float :=
-  match s.allEdges.map (fun e => wToFloat e.w) with
-  | [] => 1.0
-  | w :: ws => ws.foldl fmax w
+def wToG {α} (S : CScalar α) : W → α
+  | none => S.nan
+  | some x => S.ofInt x
+
+/-- `f64::max` as the fold in `get_max_weight` uses it -/
+def fmaxG {α} (S : CScalar α) (a b : α) : α := if S.lt b a then a else if S.lt a b then b else if S.isNaN a then b else a
+
+def maxWeightG {α} (S : CScalar α) (s : Store) : α :=
+  match s.allEdges.map (fun e => wToG S e.w) with
+  | [] => S.one
+  | w :: ws => ws.foldl (fmaxG S) w
 
 /-- `get_normalized_edge_weight` -/
-def normW (s : Store) (maxW : Float) (u v : Nat) : Float :=
+def normWG {α} (S : CScalar α) (s : Store) (maxW : α) (u v : Nat) : α :=
   match s.getEdge u v with
-  | .ok e => wToFloat e.w / maxW
-  | _ => 1.0 / maxW
+  | .ok e => S.div (wToG S e.w) maxW
+  | _ => S.div S.one maxW
 
-def fsumL (l : List Float) : Float := l.foldl (· + ·) 0.0
+/-- `.sum()` of an `f64` iterator: left fold from zero -/
+def csumG {α} (S : CScalar α) (l : List α) : α := l.foldl S.add S.zero
 
 /-- `get_weighted_triangles_and_degrees` → (name, degree, weighted_triangles) -/
-def weightedTrianglesAndDegrees (s : Store) (names : Option (List Nat)) : Outcome (List (Nat × Nat × Float)) := do
-  let maxW := s.maxWeight
+def weightedTrianglesAndDegreesG {α} (S : CScalar α) (s : Store) (names : Option (List Nat)) :
+    Outcome (List (Nat × Nat × α)) := do
+  let maxW := s.maxWeightG S
   let nmap ← s.neighborsOfNodes names
   nmap.foldl (fun acc kv => do
     let out ← acc
@@ -149,54 +158,75 @@ def weightedTrianglesAndDegrees (s : Store) (names : Option (List Nat)) : Outcom
       let seen := sinsert seen u
       let un ← (namesOf (s.getNeighborNodes u)).unwrap "get_weighted_triangles_and_degrees_for_node: unwrap"
       let unbrs := sdiff (dedup un) seen
-      let wnu := s.normW maxW n u
-      let part := fsumL ((sinter nbrs unbrs).map fun k => Float.cbrt (wnu * s.normW maxW u k * s.normW maxW k n))
-      .ok (seen, tot + part)) (.ok (([] : List Nat), 0.0))
-    .ok (out ++ [(n, nbrs.length, total * 2.0)])) (.ok [])
+      let wnu := s.normWG S maxW n u
+      let part := csumG S ((sinter nbrs unbrs).map fun k =>
+        S.cbrt (S.mul (S.mul wnu (s.normWG S maxW u k)) (s.normWG S maxW k n)))
+      .ok (seen, S.add tot part)) (.ok (([] : List Nat), S.zero))
+    .ok (out ++ [(n, nbrs.length, S.mul total S.two)])) (.ok [])
 
 /-- `get_all_directed_triangles` -/
-def allDirectedTriangles (s : Store) (maxW : Float) (i : Nat) (ip is : List Nat) (iterPreds : Bool) : Outcome Float :=
-  let wt := s.normW maxW
+def allDirectedTrianglesG {α} (S : CScalar α) (s : Store) (maxW : α) (i : Nat) (ip is : List Nat) (iterPreds : Bool) :
+    Outcome α :=
+  let wt := s.normWG S maxW
   (if iterPreds then ip else is).foldl (fun acc j => do
     let tot ← acc
     let (a, b) := if iterPreds then (j, i) else (i, j)
     let jp ← s.adjWithout j true
     let js ← s.adjWithout j false
     let t :=
-      fsumL ((sinter ip jp).map fun k => Float.cbrt (wt a b * wt k i * wt k j)) +
-      fsumL ((sinter ip js).map fun k => Float.cbrt (wt a b * wt k i * wt j k)) +
-      fsumL ((sinter is jp).map fun k => Float.cbrt (wt a b * wt i k * wt k j)) +
-      fsumL ((sinter is js).map fun k => Float.cbrt (wt a b * wt i k * wt j k))
-    .ok (tot + t)) (.ok 0.0)
+      S.add (S.add (S.add
+        (csumG S ((sinter ip jp).map fun k => S.cbrt (S.mul (S.mul (wt a b) (wt k i)) (wt k j))))
+        (csumG S ((sinter ip js).map fun k => S.cbrt (S.mul (S.mul (wt a b) (wt k i)) (wt j k)))))
+        (csumG S ((sinter is jp).map fun k => S.cbrt (S.mul (S.mul (wt a b) (wt i k)) (wt k j)))))
+        (csumG S ((sinter is js).map fun k => S.cbrt (S.mul (S.mul (wt a b) (wt i k)) (wt j k))))
+    .ok (S.add tot t)) (.ok S.zero)
 
 /-- weighted `clustering` -/
-def clusteringWeighted (s : Store) (names : Option (List Nat)) : Outcome (List (Nat × Float)) := do
+def clusteringWeightedG {α} (S : CScalar α) (s : Store) (names : Option (List Nat)) : Outcome (List (Nat × α)) := do
   s.ensureNotMulti
   s.ensureHasNodes names
   s.ensureWeighted
   if s.specs.directed then do
-    let maxW := s.maxWeight
+    let maxW := s.maxWeightG S
     let ns := match names with | none => s.getAllNodeNames | some l => l
     ns.foldl (fun acc i => do
       let out ← acc
       let ip ← s.adjWithout i true
       let is ← s.adjWithout i false
-      let t1 ← s.allDirectedTriangles maxW i ip is true
-      let t2 ← s.allDirectedTriangles maxW i ip is false
-      let t := t1 + t2
-      let tot := Float.ofNat (ip.length + is.length)
-      let rec_ := Float.ofNat (sinter ip is).length
-      .ok (ainsert out i (if t == 0.0 then 0.0 else t / ((tot * (tot - 1.0) - 2.0 * rec_) * 2.0)))) (.ok [])
+      let t1 ← s.allDirectedTrianglesG S maxW i ip is true
+      let t2 ← s.allDirectedTrianglesG S maxW i ip is false
+      let t := S.add t1 t2
+      let tot := S.ofNat (ip.length + is.length)
+      let rec_ := S.ofNat (sinter ip is).length
+      .ok (ainsert out i (if S.isZero t then S.zero
+        else S.div t (S.mul (S.sub (S.mul tot (S.sub tot S.one)) (S.mul S.two rec_)) S.two)))) (.ok [])
   else do
-    let t ← s.weightedTrianglesAndDegrees names
+    let t ← s.weightedTrianglesAndDegreesG S names
     .ok (t.foldl (fun m x =>
-      let d := Float.ofNat x.2.1
-      ainsert m x.1 (if x.2.2 == 0.0 then 0.0 else x.2.2 / (d * (d - 1.0)))) [])
+      let d := S.ofNat x.2.1
+      ainsert m x.1 (if S.isZero x.2.2 then S.zero else S.div x.2.2 (S.mul d (S.sub d S.one)))) [])
 
+/-- `average_clustering` over already computed coefficients -/
+def averageOfG {α} (S : CScalar α) (vals : List α) (countZeros : Bool) : α :=
+  let vs := vals.filter fun v => countZeros || S.lt S.zero (S.abs v)
+  S.div (csumG S vs) (S.ofNat vs.length)
+
+/-! #### the `Float` instances (what the driver runs) -/
+
+def wToFloat : W → Float := wToG floatCScalar
+def fmax (a b : Float) : Float := fmaxG floatCScalar a b
+def maxWeight (s : Store) : Float := s.maxWeightG floatCScalar
+def normW (s : Store) (maxW : Float) (u v : Nat) : Float := s.normWG floatCScalar maxW u v
+def fsumL (l : List Float) : Float := csumG floatCScalar l
+def weightedTrianglesAndDegrees (s : Store) (names : Option (List Nat)) : Outcome (List (Nat × Nat × Float)) :=
+  s.weightedTrianglesAndDegreesG floatCScalar names
+def allDirectedTriangles (s : Store) (maxW : Float) (i : Nat) (ip is : List Nat) (iterPreds : Bool) : Outcome Float :=
+  s.allDirectedTrianglesG floatCScalar maxW i ip is iterPreds
+/-- weighted `clustering` -/
+def clusteringWeighted (s : Store) (names : Option (List Nat)) : Outcome (List (Nat × Float)) :=
+  s.clusteringWeightedG floatCScalar names
 /-- `average_clustering` over already computed coefficients (as Float) -/
-def averageOf (vals : List Float) (countZeros : Bool) : Float :=
-  let vs := vals.filter fun v => countZeros || Float.abs v > 0.0
-  fsumL vs / Float.ofNat vs.length
+def averageOf (vals : List Float) (countZeros : Bool) : Float := averageOfG floatCScalar vals countZeros
 
 /-! ### square.rs -/
 
